@@ -626,6 +626,20 @@ static size_t rsa_encflip(uint8_t *out, const uint8_t *in, size_t in_len, const 
 		default: bit = 8 * (k - 1 - ((size_t)f->a % 40)) + (((size_t)f->a / 64) % 8); break;
 	}
 	if (bit >= nbits) bit = nbits - 2;
+	if (f->b % 12 == 10) {
+		/* the byte after the leading zero byte becomes 0xFF (bit 0 cleared here, set by the flip below) */
+		bit = 8 * (k - 2);
+		for (size_t j = 1; j < 8; j++) bn_set_bit(m, bit + j, 1);
+		bn_set_bit(m, bit, 0);
+		for (size_t j = 8 * (k - 1); j < nbits; j++) bn_set_bit(m, j, 0);
+	}
+	if (f->b % 12 == 11) {
+		/* a whole byte among the first fourteen set to zero: an early separator / a short padding string
+		 * (bits 1..7 cleared and bit 0 set here; the flip below clears bit 0) */
+		bit = 8 * (k - 1 - (2 + (size_t)f->a % 12));
+		for (size_t j = 1; j < 8; j++) bn_set_bit(m, bit + j, 0);
+		bn_set_bit(m, bit, 1);
+	}
 	bn_set_bit(m, bit, !bn_get_bit(m, bit));
 	if (bn_cmp(m, n) != RLC_LT) {
 		bn_set_bit(m, bit, !bn_get_bit(m, bit));
